@@ -49,6 +49,37 @@ PROPS = {
                    'known_findings.json.',
         technique='lemmas over machine-checked functional contracts of the real code (z3/cvc5); bounded run-time '
                   'contracts for sums and subclasses'),
+    'C08': dict(
+        title='Tensors form a dagger compact-closed category of matrices',
+        level='proof',
+        vc=[], sym=['C08'], rtc=None,
+        level_text='Proof per shape, for ALL arrays of that shape: the real Tensor.then / tensor / dagger / id / swap / cups / '
+                   'caps are executed on arrays whose entries are distinct symbolic complex numbers, for every choice of '
+                   'dimension tuples in the stated bound (lengths 0-2 over {2,3} incl. Dim(1), repeated and unequal '
+                   'dimensions; thorough: up to length 3); the flattened result is compared entrywise with the matrix '
+                   'product, Kronecker product, conjugate transpose, identity and block-permutation matrices, both snake '
+                   'equations, the interchange law and swap naturality. The identities are multilinear in the entries and '
+                   'are discharged by normalisation / z3. The statement for all arities (the axis arithmetic as linear '
+                   'integer VCs, DESIGN 6/C08) is not discharged in this build: shapes beyond the bound are not covered.',
+        level_note='Trusted: sympy expansion, z3; numpy tensordot/moveaxis/reshape/conjugate are exercised, not assumed, '
+                   'inside the bound. Bounded in the dimension tuples, unbounded in the array entries.',
+        technique='symbolic execution of the real tensor code on generic arrays per shape + identities discharged by '
+                  'normalisation/z3'),
+    'C09': dict(
+        title='Evaluating a diagram computes its compositional meaning',
+        level='proof',
+        vc=[], sym=['C09'], rtc=None,
+        level_text='Proof per diagram, for ALL box arrays: the real tensor.Functor.__call__ (single-pass contraction with '
+                   'axis tracking, swap special case, cups/caps, daggered boxes) is run on every rigid diagram with <= 2 '
+                   '(thorough 3) boxes over 11 box kinds on <= 3 wires of unequal dimensions, the box arrays being generic '
+                   'symbolic complex arrays; the result equals the layer-by-layer composite identity (x) box (x) identity '
+                   'computed independently with Kronecker products, entrywise, for all array values. Objects as ints / Dims, '
+                   'dict / callable; sums, spiders, bubbles, Diagram.eval; invariance under normal_form on the same set. '
+                   'The loop invariant for diagrams of any length (DESIGN 6/C09) is not discharged in this build.',
+        level_note='Trusted: sympy, z3, the independent contractor in symrun/suites/C09.py; L-net. Bounded in the diagram, '
+                   'unbounded in the arrays.',
+        technique='symbolic execution of the real functor on generic box arrays per diagram + identities discharged by '
+                  'normalisation/z3'),
     'C11': dict(
         title='Pure circuits evaluate to the unitary they describe',
         level='proof',
